@@ -28,6 +28,7 @@ SUPERSEDED = {
     "C12-s2": "its breakage (candidate range from a box projected by its corners) was repaired by F33 (GeoBox.project densifies): the demo passes with the patch; still reported because the edit computes the range before the is_empty test (F36)",
     "C12-r2s3": "it replaced the is_empty guard in grid_intersect; since F36 GeoboxTiles.tiles handles an empty query itself, the demo passes with the patch and the check is silent on it",
     "C13-r2s3": "its breakage (range_from_bbox counts a pixel only when the span reaches its centre) is compensated by the one-source-pixel slack grid_intersect adds since repair F78: the demo passes with the (rebased) patch; the C13 check still reports the edit (inward half-shift of a candidate range)",
+    "C04-r2s3": "its off-by-one sits in the range test of Tiles.__getitem__ for tile ranges reaching past the grid; since repair F63 slice bounds past the end are clamped as numpy does before that test, so the edited comparison can no longer be false - the patch is a behaviour-preserving edit now and its demo (which expects IndexError for an over-long tile range) fails on the clean tree too",
     "C04-r3s2": "Tiles.crop early return through roi_is_full: after repair F30 (roi_is_full normalises) two stable tests fail with the patch, so it no longer meets 'tests still pass'",
 }
 verified_first_run = {"C02", "C04", "C06", "C07", "C14", "C15", "C16", "C18", "C19", "C20"}
